@@ -4,6 +4,7 @@ from fractions import Fraction
 from xml.sax.saxutils import escape
 
 from bs4 import BeautifulSoup, NavigableString
+from bs4.formatter import XMLFormatter
 
 from ..base import (
     BaseReader, BaseWriter, CaptionSet, CaptionList, Caption, CaptionNode,
@@ -66,6 +67,24 @@ MICROSECONDS_PER_UNIT = {
 }
 
 DFXP_DEFAULT_LANGUAGE_CODE = "en"
+
+
+def _escape_attribute(value):
+    """Escapes a value for use inside a double-quoted XML attribute"""
+    return escape(str(value), {'"': '&quot;'})
+
+
+class _AttributeEscapingFormatter(XMLFormatter):
+    """Like formatter=None it leaves text alone (the writers escape text nodes
+    by hand, because spans are assembled as raw markup), but it escapes
+    attribute values, which nothing else does.
+    """
+
+    def __init__(self):
+        super().__init__(entity_substitution=None)
+
+    def attribute_value(self, value):
+        return escape(value)
 
 
 class DFXPReader(BaseReader):
@@ -386,7 +405,8 @@ class DFXPWriter(BaseWriter):
 
             body.append(div)
         self.region_creator.cleanup_regions()
-        caption_content = dfxp.prettify(formatter=None)
+        caption_content = dfxp.prettify(
+            formatter=_AttributeEscapingFormatter())
         return caption_content
 
     @staticmethod
@@ -473,17 +493,17 @@ class DFXPWriter(BaseWriter):
 
             content_with_style = _recreate_style(node.content, dfxp)
             for style, value in list(content_with_style.items()):
-                styles += f' {style}="{value}"'
+                styles += f' {style}="{_escape_attribute(value)}"'
             if node.layout_info:
                 region_id, region_attribs = (
                     self.region_creator.get_positioning_info(
                         lang, caption_set, caption, node
                     ))
-                styles += f' region="{region_id}"'
+                styles += f' region="{_escape_attribute(region_id)}"'
                 if self.write_inline_positioning:
                     styles += ' ' + ' '.join(
                         [
-                            f'{k_}="{v_}"'
+                            f'{k_}="{_escape_attribute(v_)}"'
                             for k_, v_ in list(region_attribs.items())
                         ]
                     )
